@@ -41,7 +41,10 @@ def run_for(v, prop):
 
     def one(c):
         module, cfg, timeout = c
-        return c, tlc.run(module, cfg, coverage=thorough, timeout=timeout, workers=4 if thorough else 2, name='mc_' + cfg.replace('.cfg', ''))
+        # (per-action coverage is only read for the one-interaction configurations; on the two-interaction and the large fragment
+        # configurations TLC's coverage instrumentation costs tens of minutes and gigabytes)
+        cov = thorough and module == 'RSocketMC' and cfg not in ('RSocketMC_channel.cfg', 'RSocketMC_channel_frag.cfg')
+        return c, tlc.run(module, cfg, coverage=cov, timeout=timeout, workers=4 if thorough else 2, name='mc_' + cfg.replace('.cfg', ''))
 
     with ThreadPoolExecutor(max_workers=2 if thorough else 7) as ex:
         results = list(ex.map(one, cfgs))
@@ -57,7 +60,7 @@ def run_for(v, prop):
             v.add_failure('%s.design_%s' % (prop, r.violated), {'cfg': cfg}, 'TLC: %s violated in the design model %s' % (r.violated, cfg))
         v.add('states', r.distinct)
         v.add('transitions', r.generated)
-        if thorough and module == 'RSocketMC':
+        if thorough and module == 'RSocketMC' and cfg not in ('RSocketMC_channel.cfg', 'RSocketMC_channel_frag.cfg'):
             cov = r.coverage()
             kind = 'rr' if '_rr' in cfg else ('stream' if '_stream' in cfg else 'channel')
             if 'witness' in cfg:
